@@ -48,6 +48,10 @@ CHECKS = {
                 technique="explicit-state search over API call sequences (all sequences to depth 3 unmerged, then BFS with canonical-state merging) against an abstract single-use nonce machine",
                 text="A 49-operation alphabet (nonce_gen / nonce_gen_counter valid and invalid variants; partial_sign with own, foreign, negated-key, zeroed, NULL keypair, missing output, bad cache / session, other nonce's session, reused and zeroed nonce) over two secret-nonce slots: every sequence of length <= 3 (117,649) is replayed on fresh objects without merging, then a merged BFS reaches the fixpoint (73 states); in every state the real secnonce bytes must match the abstract machine (ZERO | LIVE(key,id)), any partial_sign handed a nonce must leave it all-zero, at most one signature per nonce id, failures leave nothing that verifies, nonce_gen wipes the caller's randomness and rejects zero randomness.",
                 note="Depth bound 3 (thorough 4) for unmerged sequences; merging soundness is itself checked on the unmerged levels ((state, op) determines (return, callback, next state))."),
+    "C19": dict(level=MC, design="§4 C19",
+                technique="alphabet product over vector sizes / scalar vectors / rho / scratch sizes + single-mutation enumeration + total small-group enumeration, lock-step norm-argument reference model (prover and round-by-round verifier)",
+                text="Prove->verify completeness over the (|n|,|l|) grid {1,2,4,8}^2 (thorough ..64) x vector / rho / transcript alphabets x prover and verifier scratch sizes (every 16-byte step up to sufficient; insufficient must fail closed); the model reproduces library proofs byte for byte and its verifier decides every mutated proof: all single-bit flips, sign byte > 3, infinity encodings, x+p / off-curve points, s+n re-encodings, rho = 0, wrong lengths incl. trailing bytes, non-power-of-two sizes, generator-count mismatch; model-constructed accepting instances with X / R at infinity; generator lists for every count 0..256 (prefix-consistent, equal to the RFC6979->SvdW model, round trip, malformed lengths, bad point at every index with a balanced allocation ledger); in the order-13 build every vector and every well-formed proof string for small sizes is enumerated.",
+                note="secp256k1 scalar vectors outside the alphabets are not explored; non-power-of-two sizes are only driven with the all-zero statement (a general input would make a defective verifier read outside its arrays)."),
 }
 
 NOT_YET = "check not built yet in this round (work in progress; see DESIGN.md section 4 for the planned exploration)"
